@@ -156,8 +156,13 @@ def launch(
         logger.error(f"Error during system execution: {e}", exc_info=True)
         raise
     finally:
-        inference_thread.join()
-        training_thread.join()
+        # Whatever ended the run - also an interrupt that arrived while the threads were
+        # being started, before the control thread could enter its own clean-up - the
+        # background threads must have been told to stop before they are joined.
+        control_thread.shutdown()
+        for thread in (inference_thread, training_thread):
+            if thread.is_alive():  # a thread that was never started cannot be joined
+                thread.join()
         time.set_time_scale(1.0)  # Fix time scale.
 
         logger.info("Saving final system state")
